@@ -4,7 +4,12 @@
 (* -nodes -1 -msgs: 3 voters, no membership change, no compaction, no      *)
 (* CheckQuorum; profiles n3-spec* without PreVote -> TraceEtcdRaft.cfg /   *)
 (* _one.cfg, profiles n3-spec-prevote* with raft.Config.PreVote = true ->  *)
-(* TraceEtcdRaft_prevote.cfg / _prevote_one.cfg, which set PreVote = TRUE) *)
+(* TraceEtcdRaft_prevote.cfg / _prevote_one.cfg, which set PreVote = TRUE; *)
+(* profiles n3-spec-conf* with SIMPLE membership changes - one voter added *)
+(* or removed per raftpb.ConfChange / single-change ConfChangeV2, no joint *)
+(* configuration, no learners - -> TraceEtcdRaft_conf.cfg (all three nodes *)
+(* voters at the start) / _conf12_prevote_one.cfg (voters {1,2} at the     *)
+(* start, PreVote, one entry per MsgApp), which set ConfChange = TRUE)     *)
 (* against EtcdRaft.tla.  Every trace line must be                         *)
 (* explained by the corresponding action of the specification, and after   *)
 (* it the logged projection of every node and the logged bag of in-flight  *)
@@ -20,7 +25,8 @@ NLines == Len(Trace)
 VARIABLE l
 tvars == <<vars, l>>
 
-ToEnts(es) == [k \in 1..Len(es) |-> [t |-> es[k].t, p |-> es[k].p]]
+ToEnts(es) == [k \in 1..Len(es) |-> [t |-> es[k].t, p |-> es[k].p, c |-> es[k].c]]
+SeqSet(q) == {q[k] : k \in 1..Len(q)}
 ToMsg(d) == Msg(d.ty, d.fr, d.to, d.tm, d.ix, d.lt, d.cm, d.rj, d.ht, ToEnts(d.es))
 
 RECURSIVE BagOf(_, _)
@@ -34,10 +40,15 @@ NodeOK(nd, i) ==
     /\ commit'[i] = nd.commit /\ applied'[i] = nd.applied
     /\ hs'[i] = [term |-> nd.hs.term, vote |-> nd.hs.vote, commit |-> nd.hs.commit]
     /\ sc'[i] = nd.hss.commit
-    /\ log'[i] = [x \in 1..Len(nd.log) |-> [t |-> nd.log[x].t, p |-> nd.log[x].p]]
+    /\ log'[i] = [x \in 1..Len(nd.log) |-> [t |-> nd.log[x].t, p |-> nd.log[x].p, c |-> nd.log[x].c]]
+    \* the node's own configuration (Status().Config): exactly the specification's voters, nothing joint, no learners
+    /\ (nd.up => /\ cfg'[i] = SeqSet(nd.conf.v)
+                 /\ Len(nd.conf.vo) = 0 /\ Len(nd.conf.l) = 0 /\ Len(nd.conf.ln) = 0)
+    \* the leader's Progress map: one Progress per voter of its configuration, and each as specified
     /\ (nd.role = "L" =>
-          \A j \in Server : LET q == nd.pr[j] IN
-              pr'[i][j] = [match |-> q.match, next |-> q.next, state |-> q.state, probesent |-> q.probesent])
+          /\ {nd.pr[k].id : k \in 1..Len(nd.pr)} = cfg'[i]
+          /\ \A k \in 1..Len(nd.pr) : LET q == nd.pr[k] IN
+                pr'[i][q.id] = [match |-> q.match, next |-> q.next, state |-> q.state, probesent |-> q.probesent])
 
 StateOK(k) ==
     /\ \A i \in Server : NodeOK(Trace[k].n[i], i)
@@ -58,24 +69,30 @@ TraceNext ==
                      /\ lead' = [x \in Server |-> 0] /\ log' = [x \in Server |-> <<>>] /\ commit' = [x \in Server |-> 0]
                      /\ applied' = [x \in Server |-> 0] /\ hs' = [x \in Server |-> [term |-> 0, vote |-> 0, commit |-> 0]]
                      /\ sc' = [x \in Server |-> 0] /\ votes' = [x \in Server |-> NoVotes] /\ pr' = [x \in Server |-> NoPr]
+                     /\ cfg' = [x \in Server |-> InitVoters] /\ pci' = [x \in Server |-> 0]
                      /\ net' = <<>> /\ elected' = {} /\ gc' = <<>> /\ gct' = <<>> /\ lcok' = TRUE
-                     /\ UNCHANGED <<nprop, ncrash, ndrop, ndup, nhb>> /\ act' = [name |-> "Reset"]
-               [] e.ev = "campaign" -> IF e.ok /\ role[i] \notin {"L", "D"} THEN Campaign(i) ELSE Stutter
+                     /\ Budgets /\ act' = [name |-> "Reset"]
+               \* Campaign() of a node that is not a voter of its own configuration returns nil and does nothing (hup: promotable)
+               [] e.ev = "campaign" -> IF e.ok /\ role[i] \notin {"L", "D"} /\ i \in cfg[i] THEN Campaign(i) ELSE Stutter
                [] e.ev = "tick" -> IF e.ok /\ role[i] = "L" THEN Heartbeat(i) ELSE Stutter
                [] e.ev = "propose" -> IF e.ok THEN Propose(i, e.arg.p) ELSE Stutter
+               \* arg.cc.ops = <<<<ConfChangeType, node id>>>>: 0 = ConfChangeAddNode, 1 = ConfChangeRemoveNode
+               [] e.ev = "confchange" ->
+                     IF e.ok THEN LET op == e.arg.cc.ops[1] IN ProposeConfChange(i, IF op[1] = 0 THEN op[2] ELSE 0 - op[2], e.arg.p)
+                     ELSE Stutter
                [] e.ev = "deliver" ->
                      IF ~e.ok THEN Stutter
                      ELSE LET m == ToMsg(e.arg.m) IN
                           IF role[m.to] = "D"
                           THEN /\ m \in DOMAIN net /\ net' = BagDel(net, m)
-                               /\ UNCHANGED <<nodeVars, nprop, ncrash, ndrop, ndup, nhb, elected, gc, gct, lcok>>
+                               /\ UNCHANGED <<nodeVars, nprop, ncrash, ndrop, ndup, nhb, nconf, nref, elected, gc, gct, lcok>>
                                /\ act' = [name |-> "DeliverToDown"]
                           ELSE \/ DeliverStale(m) \/ DeliverVote(m) \/ DeliverVoteResp(m) \/ DeliverApp(m)
-                               \/ DeliverAppResp(m) \/ DeliverHB(m) \/ DeliverHBResp(m)
+                               \/ DeliverAppResp(m) \/ DeliverHB(m) \/ DeliverHBResp(m) \/ DeliverUnknownPeer(m)
                [] e.ev = "drop" -> IF e.ok THEN Drop(ToMsg(e.arg.m)) ELSE Stutter
                [] e.ev = "dup" -> IF e.ok THEN LET m == ToMsg(e.arg.m) IN
                                         /\ m \in DOMAIN net /\ net' = BagAdd(net, m) /\ ndup' = ndup + 1
-                                        /\ UNCHANGED <<nodeVars, nprop, ncrash, ndrop, nhb, elected, gc, gct, lcok>>
+                                        /\ UNCHANGED <<nodeVars, nprop, ncrash, ndrop, nhb, nconf, nref, elected, gc, gct, lcok>>
                                         /\ act' = [name |-> "Dup"]
                                   ELSE Stutter
                [] e.ev = "crash" -> IF e.ok THEN CrashTo(i, Trace[l + 1].n[i].hs.commit) /\ act' = [name |-> "Crash"] ELSE Stutter
